@@ -64,3 +64,9 @@ pub broadcast group as_ref_str_axioms { axiom_as_ref_str_view_str, axiom_as_ref_
 fn verif_as_ref_str<T: AsRef<str>>(t: &T) -> (r: &str)
     ensures r@ == as_ref_str_view(*t)
 { t.as_ref() }
+// HashSet<String> with borrowed &str keys
+pub broadcast axiom fn axiom_str_set_differ(s1: Set<String>, s2: Set<String>, k: &str)
+    ensures #[trigger] sets_differ_by_borrowed_key::<String, str>(s1, s2, k) <==> s2 == s1.remove(skey(k@));
+pub broadcast axiom fn axiom_str_set_contains(s: Set<String>, k: &str)
+    ensures #[trigger] set_contains_borrowed_key::<String, str>(s, k) <==> s.contains(skey(k@));
+pub broadcast group string_set_axioms { axiom_str_set_differ, axiom_str_set_contains }
